@@ -12,6 +12,7 @@ import (
 
 	ethcmn "github.com/ethereum/go-ethereum/common"
 	ethtypes "github.com/ethereum/go-ethereum/core/types"
+	ethcrypto "github.com/ethereum/go-ethereum/crypto"
 
 	"github.com/Oneledger/protocol/action"
 	olvmact "github.com/Oneledger/protocol/action/olvm"
@@ -24,6 +25,7 @@ import (
 	"olverif/internal/hist"
 	"olverif/internal/proto"
 	"olverif/internal/verdict"
+	"olverif/internal/world"
 )
 
 type encoding struct {
@@ -96,6 +98,28 @@ func olvmUnsignedVariants(tx []byte) []encoding {
 		st.Data = d
 		out = append(out, encoding{v.name, st.SignedBytes()})
 	}
+	// the payload is carried as opaque bytes and the EVM-style signature is computed over its decoded
+	// fields: any other JSON spelling of the same payload gives new transaction bytes (and a new hash)
+	// under the same signature
+	for _, v := range []struct {
+		name string
+		f    func(d []byte) []byte
+	}{
+		{"olvm-unsigned-inner-whitespace", func(d []byte) []byte { return bytes.Replace(d, []byte(`{"nonce":`), []byte(`{ "nonce": `), 1) }},
+		{"olvm-unsigned-inner-trailing-space", func(d []byte) []byte { return append(append([]byte{}, d...), ' ') }},
+		{"olvm-unsigned-inner-extra-field", func(d []byte) []byte { return bytes.Replace(d, []byte(`{"nonce":`), []byte(`{"zz":1,"nonce":`), 1) }},
+	} {
+		st := &action.SignedTx{}
+		if json.Unmarshal(tx, st) != nil {
+			return out
+		}
+		nd := v.f(st.Data)
+		if bytes.Equal(nd, st.Data) {
+			continue
+		}
+		st.Data = nd
+		out = append(out, encoding{v.name, st.SignedBytes()})
+	}
 	return out
 }
 
@@ -131,7 +155,11 @@ func sameSignedContent(a, b []byte) bool {
 // replayProbe: on a fork, execute base in a block, optionally restart the
 // node, run `gap` empty blocks, then CheckTx the resubmission and deliver it
 // alone in a byzantine block. Returns the observations and the final state.
+// c05Pre: base transaction bytes -> transactions to execute in the same block before it.
+var c05Pre sync.Map
+
 type replayOut struct {
+	baseLog   string
 	baseOK    bool
 	checkCode uint32
 	checkLog  string
@@ -168,7 +196,12 @@ func (wm *warm) replayProbe(base []byte, resub []byte, gap int, restart bool, be
 		return resp, true
 	}
 	st := wm.state
-	resp, ok := step([][]byte{base})
+	first := [][]byte{base}
+	if pre, ok := c05Pre.Load(string(base)); ok {
+		// transactions of other accounts executed in the same block right before the base
+		first = append(append([][]byte{}, pre.([][]byte)...), base)
+	}
+	resp, ok := step(first)
 	if !ok {
 		o.diedAt = "base-block"
 		return o
@@ -177,6 +210,7 @@ func (wm *warm) replayProbe(base []byte, resub []byte, gap int, restart bool, be
 	for _, c := range resp.Calls {
 		if c.M == "DeliverTx" {
 			o.baseOK = c.Code == 0
+			o.baseLog = c.Log
 		}
 	}
 	if restart {
@@ -275,20 +309,20 @@ func checkC05(tier string) int {
 		// an EVM account that spends itself down to exactly zero, is funded again by somebody else, and then
 		// sees its old transaction resubmitted with an unsigned payload field changed
 		between := map[int][][]byte{}
-		if len(wm.w.EthUsers) > 0 {
-			e := wm.w.EthUsers[len(wm.w.EthUsers)-1]
-			bal := gen.BalanceOf(wm.state, e.Addr, "OLT")
+		{
+			// a fresh EVM account (nonce 0) that nobody else uses, funded natively in the same block
+			fresh := world.AccountFromEthSecp(fmt.Sprintf("c05-drain-%d", wm.h), ethcrypto.Keccak256([]byte(fmt.Sprintf("c05-drain-%d-%d", wm.seed, wm.h))))
+			u := wm.w.Users[0]
+			fund := txb.Tx(txb.Send(u.Addr, fresh.Addr, "OLT", "3000000000000000000"), txb.DefaultFee(), fmt.Sprintf("c05-fund-%d", wm.h), u)
+			bal, _ := new(big.Int).SetString("3000000000000000000", 10)
 			cost := new(big.Int).Mul(big.NewInt(21000), big.NewInt(1000000000))
-			if bal.Cmp(cost) > 0 {
-				n, _ := gen.KeeperNonce(wm.state, e.Addr)
-				to := ethcmn.BytesToAddress(wm.w.Users[1].Addr)
-				v := new(big.Int).Sub(bal, cost)
-				tx := gen.OLVMTx(&gen.Ctx{W: wm.w}, e, wm.w.EthKeys[e.Addr.String()], n, &to, v, nil, 21000, "1000000000", gen.ChainIDOf(wm.w), fmt.Sprint(n))
-				u := wm.w.Users[0]
-				refund := txb.Tx(txb.Send(u.Addr, e.Addr, "OLT", "5"), txb.DefaultFee(), fmt.Sprintf("c05-refund-%d", wm.h), u)
-				between[len(bases)] = [][]byte{refund}
-				bases = append(bases, hist.TxSpec{Kind: "OLVM", Bytes: tx, Note: "EVM account spends its whole balance (refunded later by somebody else)", Signers: []string{e.Addr.String()}})
-			}
+			to := ethcmn.BytesToAddress(wm.w.Users[1].Addr)
+			v := new(big.Int).Sub(bal, cost)
+			tx := gen.OLVMTx(&gen.Ctx{W: wm.w}, &fresh, ethcrypto.Keccak256([]byte(fmt.Sprintf("c05-drain-%d-%d", wm.seed, wm.h))), 0, &to, v, nil, 21000, "1000000000", gen.ChainIDOf(wm.w), "0")
+			refund := txb.Tx(txb.Send(u.Addr, fresh.Addr, "OLT", "5000000000000000000"), txb.DefaultFee(), fmt.Sprintf("c05-refund-%d", wm.h), u)
+			c05Pre.Store(string(tx), [][]byte{fund})
+			between[len(bases)] = [][]byte{refund}
+			bases = append(bases, hist.TxSpec{Kind: "OLVM", Bytes: tx, Note: "EVM account spends its whole balance (refunded later by somebody else)", Signers: []string{fresh.Addr.String()}})
 		}
 		parallel(len(bases), 14, func(bi int) {
 			b := bases[bi]
@@ -313,7 +347,13 @@ func checkC05(tier string) int {
 				tw := wm.replayProbe(b.Bytes, nil, v.gap, v.restart, between[bi]...)
 				if tw.err != nil || tw.died || !tw.baseOK {
 					r.Count("bases_not_executable", 1)
+					if between[bi] != nil || b.Note == "transfer with an empty memo" {
+						r.Inconclusive(fmt.Sprintf("directed base %q did not execute on the fork (err=%v died=%v log=%s)", b.Note, tw.err, tw.died, cut(tw.baseLog, 200)))
+					}
 					return
+				}
+				if between[bi] != nil {
+					r.Count("directed:drain-and-refund-base-executed", 1)
 				}
 				r.Count("bases_executed", 1)
 				jmu.Lock()
